@@ -16,6 +16,11 @@ CHECKS = {
     text="The structure classes (716), enums (27) and intrinsic wrappers (147) are re-read from the source text on every run and the kernel checks, for every row: stored hash = signed CRC-32 of the prefab name (CRC computed in Coq), plural/singular pairing with equal hash and singleton, slot aliases resolve to the numbered slot, enum values injective, wrapper opcode/operand order/result flag against the hand-written IC10 signature table. Exhaustive over the tables; the nine wrappers that fail are excluded by name in the theorem, refuted in C16_findings.v and listed as a known finding.",
     note="Trusted: Coq kernel; Sig.v (IC10 signatures, hand-written); CRC32.v (compared with zlib each run); translator tables.py (cross-checked against the imported package by reflection each run).",
     design="4 C16"),
+ "C17": dict(
+    category="proof", technique="Coq proof over a model of str.splitlines + regenerated statistics expressions; independent recount of every compile",
+    text="The three statistics expressions are re-read from get_code on every run as terms; the kernel checks, for every program text that is non-empty, has '\\n' as its only line boundary and no trailing newline (and for the empty program), that they evaluate to the line count, the size with two-byte line ends and the size of the used-register list (induction over the text against a model of str.splitlines). Every compile done by the check (repository programs, corpus, generated programs x option vectors) is recounted independently, num_registers against the allocation map exported by the hook.",
+    note="Trusted: Coq kernel; PyStr.v model of splitlines/len; translator stats.py; the hook's export of the register map. That the used-register list equals the image of the allocation is checked per compile (and proved for the allocation model in C04), not proved about the Python code.",
+    design="4 C17"),
 }
 
 NOT_YET = {}
